@@ -804,6 +804,7 @@ type c13Orc struct {
 	lexKinds map[string]bool
 	env      interface{} // the environment of the current mode: c13Env, or c13KwEnv() in keyword-prefix mode
 	kw       bool
+	locAsks  []c13LocAsk // single-failure programs handed to the instrumented reference evaluator (c13_specloc.go)
 }
 
 func (o *c13Orc) setMode(kw bool) {
@@ -1565,11 +1566,46 @@ func (o *c13Orc) runtimeFault(kind string, seed int64) bool {
 	run := func(api string, f func() error) { o.judge(cs, c13Call(api, f)) }
 	run("Compile+Run", func() error { _, err := expr.Run(prog, env); return err })
 	run("Eval", func() error { _, err := expr.Eval(src, env); return err })
+	o.askSpecLoc(kind, src)
 	if p2, err := expr.Compile(src, expr.Env(env), expr.Optimize(false)); err == nil {
 		o.locMap(cs, p2, tokStarts, "unoptimized")
 		run("Compile+Optimize(false)+Run", func() error { _, err := expr.Run(p2, env); return err })
 	}
 	return true
+}
+
+// askSpecLoc: the same single-failure program under expr.Eval (no checker: the tree as parsed) vs Spec.runLoc.
+// Programs that call a method of the environment (the model's world knows the zoo functions only), match a
+// regular expression outside the model's sub-language, or run in the keyword-prefix environment are left out.
+func (o *c13Orc) askSpecLoc(kind, src string) {
+	r := o.c.R
+	if o.kw {
+		return
+	}
+	for _, w := range []string{"Add", "Upper", "Boom", "Twice", "matches"} {
+		if strings.Contains(src, w) {
+			r.Count("specloc:oracle-skipped", 1)
+			return
+		}
+	}
+	tree, err := parser.Parse(src)
+	if err != nil {
+		return
+	}
+	treeSx := nodeSx(tree.Node, true).String()
+	rep := c13Call("Eval", func() error { _, err := expr.Eval(src, o.env); return err })
+	a := c13LocAsk{what: "specloc-oracle", input: kind + ": " + src, line: c13LocLine(vm.MemoryBudget, asIs.RangeSigned, "_", o.env, treeSx)}
+	if rep.panicked {
+		return
+	}
+	if rep.err != nil {
+		fe, ok := rep.err.(*file.Error)
+		if !ok {
+			return
+		}
+		a.realErr, a.class, a.row, a.col = true, classifyRunErr(rep.err), fe.Line, fe.Column
+	}
+	o.locAsks = append(o.locAsks, a)
 }
 
 // locMap: every entry of program.Locations is the start of a token of the source (the location map
@@ -1729,6 +1765,11 @@ func c13Oracle(c *Ctx) {
 		runKind(o.runtimeFault, c13RunKinds)
 	}
 	o.setMode(false)
+	if n := c13LocJudge(c, o.locAsks); n == 0 {
+		r.Mismatch("generator", "specloc-oracle", "single-failure programs compared with Spec.runLoc", "0")
+	} else {
+		r.Count("specloc:oracle-failing", n)
+	}
 	// a silent generator regression must not look like a pass
 	for _, k := range append(append(append([]string{}, c13CheckKinds...), c13SyntaxKinds...), c13RunKinds...) {
 		if r.Counters["fault:"+k] < per/2 {
